@@ -53,6 +53,7 @@ mem_pool_return_partial_bucket(ABTI_mem_pool_global_pool *p_global_pool,
             num_headers_per_bucket) {
             /* Connect partial_bucket + bucket. Still not enough to make
              * a complete bucket. */
+            ABTI_VERIF_COV(ABTI_VERIF_C_MEMPOOL_PARTIAL_MERGE);
             ABTI_mem_pool_header *partial_bucket_tail =
                 p_global_pool->partial_bucket;
             for (i = 1; i < num_headers_in_partial_bucket; i++) {
@@ -63,6 +64,7 @@ mem_pool_return_partial_bucket(ABTI_mem_pool_global_pool *p_global_pool,
                 num_headers_in_partial_bucket + num_headers_in_bucket;
         } else {
             /* partial_bucket + bucket can make a complete bucket. */
+            ABTI_VERIF_COV(ABTI_VERIF_C_MEMPOOL_PARTIAL_COMPLETE);
             ABTI_mem_pool_header *partial_bucket_header =
                 p_global_pool->partial_bucket;
             for (i = 1; i < num_headers_per_bucket - num_headers_in_bucket;
@@ -228,6 +230,7 @@ ABTI_mem_pool_take_bucket(ABTI_mem_pool_global_pool *p_global_pool,
     const int num_headers_per_bucket = p_global_pool->num_headers_per_bucket;
     if (ABTU_likely(p_popped_bucket_lifo_elem)) {
         /* Use this bucket. */
+        ABTI_VERIF_COV(ABTI_VERIF_C_MEMPOOL_TAKE_BUCKET);
         ABTI_mem_pool_header *popped_bucket =
             mem_pool_lifo_elem_to_header(p_popped_bucket_lifo_elem);
         popped_bucket->bucket_info.num_headers = num_headers_per_bucket;
@@ -249,6 +252,7 @@ ABTI_mem_pool_take_bucket(ABTI_mem_pool_global_pool *p_global_pool,
                 p_page = mem_pool_lifo_elem_to_page(p_page_lifo_elem);
             } else {
                 /* Let's allocate memory by myself */
+                ABTI_VERIF_COV(ABTI_VERIF_C_MEMPOOL_NEW_PAGE);
                 const size_t page_size = p_global_pool->page_size;
                 ABTU_MEM_LARGEPAGE_TYPE lp_type;
                 void *p_alloc_mem;
@@ -375,6 +379,7 @@ void ABTI_mem_pool_return_bucket(ABTI_mem_pool_global_pool *p_global_pool,
                                  ABTI_mem_pool_header *bucket)
 {
     /* Simply return that bucket to the pool */
+    ABTI_VERIF_COV(ABTI_VERIF_C_MEMPOOL_RETURN_BUCKET);
     ABTI_sync_lifo_push(&p_global_pool->bucket_lifo,
                         &bucket->bucket_info.lifo_elem);
 }
